@@ -55,9 +55,10 @@ NOTE = ("Runtime monitoring: speaks only about the executions generated (seeded 
 def main():
     checks = []
     na = []
+    ready = set(open(os.path.join(VERIF, "tools", "ready.txt")).read().split())
     for pid in sorted(T):
         tech, text, ref = T[pid]
-        if os.path.exists(os.path.join(VERIF, "stv", "props", pid.lower() + ".py")):
+        if pid in ready and os.path.exists(os.path.join(VERIF, "stv", "props", pid.lower() + ".py")):
             checks.append({
                 "property_id": pid,
                 "quick_cmd": f"./check {pid} --tier quick",
